@@ -23,8 +23,22 @@ class Verdict:
         self.reason = reason
 
 
+_APPS_MEMO = {}
+
+
 def _apps(term, funcs, out, seen):
-    """index arguments of applications of the given uninterpreted functions"""
+    """index arguments of applications of the given uninterpreted functions (memoised per formula)"""
+    key = (term.get_id(), tuple(sorted(funcs)))
+    hit = _APPS_MEMO.get(key)
+    if hit is None:
+        found = {}
+        _apps_walk(term, funcs, found, set())
+        _APPS_MEMO[key] = (term, found)
+        hit = _APPS_MEMO[key]
+    out.update(hit[1])
+
+
+def _apps_walk(term, funcs, out, seen):
     stack = [term]
     fids = funcs
     while stack:
@@ -61,7 +75,7 @@ def instantiate(facts, formulas, funcs, seeds=(), rounds=2, limit=40):
         terms = list(idx.values())[:limit]
         new = []
         for fact in facts:
-            if fact.arity != 1:
+            if fact.arity != 1 or not getattr(fact, "auto", True):
                 continue
             for t in terms:
                 key = (id(fact), t.get_id())
@@ -207,16 +221,26 @@ def has_nl(term, memo):
     return r
 
 
+_NL_MEMO = {}
+_NL_KEEP = []
+
+
+def reset_caches():
+    _NL_MEMO.clear()
+    del _NL_KEEP[:]
+    _APPS_MEMO.clear()
+
+
 def prove(assumptions, goal, timeout_ms=None):
     """validity of  /\\ assumptions -> goal"""
     if goal is True:
         return Verdict("unsat", "trivial", 0.0), None
     fs = [alg.lift(a) for a in assumptions if a is not True]
     fs.append(z3.Not(alg.lift(goal)))
-    m = {}
-    if any(has_nl(f, m) for f in fs):
-        memo = {}
-        v, s = check_sat([abstract_nl(f, memo) for f in fs], timeout_ms, want_model=False, fallback=False)
+    _NL_KEEP.extend(fs)  # keep the terms alive: the memo is keyed by ast id
+    abstracted = [abstract_nl(f, _NL_MEMO) for f in fs]
+    if any(a is not f for a, f in zip(abstracted, fs)):
+        v, s = check_sat(abstracted, timeout_ms, want_model=False, fallback=False)
         if v.status == "unsat":
             v.solver += "(nl-abstracted)"
             return v, s
